@@ -21,9 +21,11 @@ def _c20_exc(err, scn, res):
     fr = err.get("pams_frame") or ["", ""]
     if not fr[0].startswith("pams/agents/"):
         return None
-    if err.get("type") == "AssertionError":
-        # the agent's own input assertions (e.g. a normal-margin price drawn below zero): it declares the
-        # situation inadmissible itself; listed as an anomaly, never as a violation
+    if err.get("type") in ("AssertionError", "OverflowError", "ZeroDivisionError") or "math domain" in err.get("msg", ""):
+        # the agent's own input assertions (e.g. a normal-margin price drawn below zero) or the numerical
+        # range of the documented formula being exceeded (exp overflow with a very long window and a price far
+        # from the fundamental): the situation is outside the admissible inputs; listed as an anomaly, never
+        # as a violation (a wrong formula is caught by the comparison with the reference strategy instead)
         return ""
     try:
         for m in mon.markets:
@@ -56,7 +58,7 @@ def registry() -> Dict[str, Check]:
         "C01", {"C01"},
         [Batch("B-mix", gen_b.gen_history, 20000, 400000, driver="B", budget_s=30.0),
          Batch("A-engine", gen_a.gen_engine, 2500, 40000, driver="A", budget_s=90.0, profile="engine"),
-         Batch("B-deep", gen_b.gen_deep, 96, 3000, driver="B", budget_s=300.0, profile="deep"),
+         Batch("B-deep", gen_b.gen_deep, 64, 3000, driver="B", budget_s=300.0, profile="deep"),
          Batch("A-scale", gen_a.gen_scale, 12, 240, driver="A", budget_s=600.0, profile="scale")],
         nontrivial=lambda s: s["probes"].get("round_ge3_fills", 0) + s["probes"].get("last_pair_prices_differ", 0) > 0,
         rule="Seeded driver-B histories / driver-A runs; non-trivial = at least one matching round whose last pair "
@@ -68,7 +70,7 @@ def registry() -> Dict[str, Check]:
         "C02", {"C02"},
         [Batch("B-mix", gen_b.gen_history, 15000, 400000, driver="B", budget_s=30.0),
          Batch("A-engine", gen_a.gen_engine, 2500, 40000, driver="A", budget_s=90.0, profile="engine"),
-         Batch("B-deep", gen_b.gen_deep, 96, 3000, driver="B", budget_s=300.0, profile="deep"),
+         Batch("B-deep", gen_b.gen_deep, 64, 3000, driver="B", budget_s=300.0, profile="deep"),
          Batch("A-scale", gen_a.gen_scale, 12, 240, driver="A", budget_s=600.0, profile="scale")],
         nontrivial=lambda s: s["probes"].get("cmp_tie_price_time", 0) > 0 and s["stats"].get("rounds_nonempty", 0) > 0,
         rule="Seeded driver-B histories / driver-A runs; non-trivial = at least one non-empty round and at least one "
@@ -79,7 +81,7 @@ def registry() -> Dict[str, Check]:
         "C03", {"C03"},
         [Batch("B-mix", gen_b.gen_history, 20000, 400000, driver="B", budget_s=30.0),
          Batch("A-engine", gen_a.gen_engine, 2500, 40000, driver="A", budget_s=90.0, profile="engine"),
-         Batch("B-deep", gen_b.gen_deep, 96, 3000, driver="B", budget_s=300.0, profile="deep"),
+         Batch("B-deep", gen_b.gen_deep, 64, 3000, driver="B", budget_s=300.0, profile="deep"),
          Batch("A-scale", gen_a.gen_scale, 12, 240, driver="A", budget_s=600.0, profile="scale")],
         nontrivial=lambda s: s["probes"].get("crossed_book_cleared", 0) + s["probes"].get("market_vs_market_pair", 0) > 0,
         rule="Seeded driver-B histories / driver-A runs; non-trivial = a crossed book accumulated during an outage was "
@@ -91,7 +93,7 @@ def registry() -> Dict[str, Check]:
         "C04", {"C04"},
         [Batch("B-mix", gen_b.gen_history, 15000, 400000, driver="B", budget_s=30.0),
          Batch("A-engine", gen_a.gen_engine, 3000, 40000, driver="A", budget_s=90.0, profile="engine_hostile"),
-         Batch("B-deep", gen_b.gen_deep, 96, 3000, driver="B", budget_s=300.0, profile="deep"),
+         Batch("B-deep", gen_b.gen_deep, 64, 3000, driver="B", budget_s=300.0, profile="deep"),
          Batch("A-scale", gen_a.gen_scale, 12, 240, driver="A", budget_s=600.0, profile="scale")],
         nontrivial=lambda s: s["stats"].get("expiries", 0) > 0 and s["stats"].get("cancels", 0) > 0,
         rule="Seeded driver-B histories / driver-A runs; non-trivial = at least one expiry and one cancel happened.",
@@ -102,7 +104,7 @@ def registry() -> Dict[str, Check]:
         "C08", {"C08"},
         [Batch("B-mix", gen_b.gen_history, 15000, 400000, driver="B", budget_s=30.0),
          Batch("A-engine", gen_a.gen_engine, 3000, 40000, driver="A", budget_s=90.0, profile="engine"),
-         Batch("B-deep", gen_b.gen_deep, 96, 3000, driver="B", budget_s=300.0, profile="deep"),
+         Batch("B-deep", gen_b.gen_deep, 64, 3000, driver="B", budget_s=300.0, profile="deep"),
          Batch("A-scale", gen_a.gen_scale, 12, 240, driver="A", budget_s=600.0, profile="scale")],
         nontrivial=lambda s: s["probes"].get("book_event_while_stopped", 0) > 0 and s["stats"].get("fills", 0) > 0,
         rule="Seeded driver-B histories / driver-A runs; non-trivial = book events happened while the market was not "
@@ -113,7 +115,7 @@ def registry() -> Dict[str, Check]:
         "C19", {"C19"},
         [Batch("B-mix", gen_b.gen_history, 15000, 400000, driver="B", budget_s=30.0),
          Batch("A-engine", gen_a.gen_engine, 2000, 30000, driver="A", budget_s=90.0, profile="engine"),
-         Batch("B-deep", gen_b.gen_deep, 96, 3000, driver="B", budget_s=300.0, profile="deep")],
+         Batch("B-deep", gen_b.gen_deep, 64, 3000, driver="B", budget_s=300.0, profile="deep")],
         nontrivial=lambda s: s["probes"].get("c19_off_grid_buy", 0) > 0 and s["probes"].get("c19_off_grid_sell", 0) > 0,
         rule="Every accepted limit order of every history is an instance; non-trivial = off-grid prices on both sides "
              "were accepted in the run.",
@@ -123,7 +125,8 @@ def registry() -> Dict[str, Check]:
         "C05", {"C05"},
         [Batch("A-ledger", gen_a.gen_world, 4000, 40000, driver="A", budget_s=90.0, profile="ledger"),
          Batch("B-mix", gen_b.gen_history, 15000, 200000, driver="B", budget_s=30.0),
-         Batch("A-scale", gen_a.gen_scale, 12, 240, driver="A", budget_s=600.0, profile="scale")],
+         Batch("A-scale", gen_a.gen_scale, 12, 240, driver="A", budget_s=600.0, profile="scale"),
+         Batch("A-long", gen_a.gen_long, 400, 8000, driver="A", budget_s=300.0, profile="world:ledger")],
         plugins=lambda: [oracles_a.LedgerPlugin()],
         nontrivial=lambda s: s["stats"].get("fills", 0) >= 3,
         rule="Driver-A runs (markets incl. index, scripted normal/HFT agents, built-in agents) and driver-B "
@@ -143,7 +146,8 @@ def registry() -> Dict[str, Check]:
     reg["C09"] = Check(
         "C09", {"C09", "C03"},
         [Batch("A-sessions", gen_a.gen_world, 6000, 80000, driver="A", budget_s=90.0, profile="sessions"),
-         Batch("A-crowd", gen_a.gen_crowd, 200, 4000, driver="A", budget_s=300.0, profile="crowd")],
+         Batch("A-crowd", gen_a.gen_crowd, 200, 4000, driver="A", budget_s=300.0, profile="crowd"),
+         Batch("A-long", gen_a.gen_long, 400, 8000, driver="A", budget_s=300.0, profile="world:sessions")],
         plugins=lambda: [oracles_a.SessionRulesPlugin()],
         nontrivial=lambda s: s["probes"].get("normal_cap_reached", 0) + s["probes"].get("hft_cap_reached", 0) > 0,
         rule="Driver-A runs over session lists with all flag combinations, caps incl. 0, rates incl. 0 and 1, "
@@ -153,7 +157,8 @@ def registry() -> Dict[str, Check]:
     reg["C10"] = Check(
         "C10", {"C10", "C04"},
         [Batch("A-logger", gen_a.gen_world, 5000, 60000, driver="A", budget_s=90.0, profile="logger"),
-         Batch("A-scale", gen_a.gen_scale, 12, 240, driver="A", budget_s=900.0, profile="scale")],
+         Batch("A-scale", gen_a.gen_scale, 12, 240, driver="A", budget_s=900.0, profile="scale"),
+         Batch("A-long", gen_a.gen_long, 400, 8000, driver="A", budget_s=300.0, profile="world:logger")],
         plugins=lambda: [oracles_a.LoggerPlugin()],
         nontrivial=lambda s: s["stats"].get("fills", 0) > 0 and s["stats"].get("expiries", 0) > 0 and s["stats"].get("cancels", 0) > 0,
         rule="Driver-A runs with all event kinds; non-trivial = the run contained fills, cancels and expiries.",
@@ -161,7 +166,8 @@ def registry() -> Dict[str, Check]:
     reg["C11"] = Check(
         "C11", {"C11"},
         [Batch("A-callbacks", gen_a.gen_world, 5000, 60000, driver="A", budget_s=90.0, profile="callbacks"),
-         Batch("A-scale", gen_a.gen_scale, 12, 240, driver="A", budget_s=900.0, profile="scale")],
+         Batch("A-scale", gen_a.gen_scale, 12, 240, driver="A", budget_s=900.0, profile="scale"),
+         Batch("A-long", gen_a.gen_long, 400, 8000, driver="A", budget_s=300.0, profile="world:callbacks")],
         plugins=lambda: [oracles_a.CallbackPlugin()],
         nontrivial=lambda s: s["stats"].get("fills", 0) > 0 and s["stats"].get("cancels", 0) > 0,
         rule="Driver-A runs with scripted normal and HFT agents; non-trivial = fills and cancels happened.",
@@ -169,7 +175,8 @@ def registry() -> Dict[str, Check]:
     )
     reg["C13"] = Check(
         "C13", {"C13"},
-        [Batch("A-hooks", gen_a.gen_world, 5000, 60000, driver="A", budget_s=90.0, profile="hooks")],
+        [Batch("A-hooks", gen_a.gen_world, 5000, 60000, driver="A", budget_s=90.0, profile="hooks"),
+         Batch("A-long", gen_a.gen_long, 400, 8000, driver="A", budget_s=300.0, profile="world:hooks")],
         plugins=lambda: [oracles_a.HooksPlugin()],
         nontrivial=lambda s: s["stats"].get("probe_calls", 0) > 0 and s["stats"].get("fills", 0) > 0,
         rule="Driver-A runs with 1-6 generated probe events (hook kinds x time lists x market filters); "
@@ -178,7 +185,8 @@ def registry() -> Dict[str, Check]:
     )
     reg["C17"] = Check(
         "C17", {"C17"},
-        [Batch("A-index", gen_a.gen_world, 4000, 50000, driver="A", budget_s=90.0, profile="index")],
+        [Batch("A-index", gen_a.gen_world, 4000, 50000, driver="A", budget_s=90.0, profile="index"),
+         Batch("A-long", gen_a.gen_long, 400, 8000, driver="A", budget_s=300.0, profile="world:index")],
         plugins=lambda: [oracles_a.IndexPlugin()],
         nontrivial=lambda s: s["probes"].get("unequal_weights_checked", 0) > 0 and s["stats"].get("fills", 0) > 0,
         rule="Driver-A runs with an index market over 2-4 components with unequal outstanding shares; "
@@ -187,7 +195,8 @@ def registry() -> Dict[str, Check]:
     )
     reg["C14"] = Check(
         "C14", {"C14", "C19"},
-        [Batch("A-shocks", gen_a.gen_rules, 6000, 80000, driver="A", budget_s=90.0, profile="shocks")],
+        [Batch("A-shocks", gen_a.gen_rules, 6000, 80000, driver="A", budget_s=90.0, profile="shocks"),
+         Batch("A-long", gen_a.gen_long, 400, 8000, driver="A", budget_s=300.0, profile="rules:shocks")],
         plugins=lambda: [oracles_rules.ShockPlugin()],
         nontrivial=lambda s: s["probes"].get("fund_shock_fired", 0) + s["probes"].get("mistake_replaced", 0) > 0,
         rule="Driver-A runs with 2-4 markets and 1-4 fundamental / order-mistake shocks; non-trivial = a shock fired.",
@@ -196,7 +205,8 @@ def registry() -> Dict[str, Check]:
     )
     reg["C15"] = Check(
         "C15", {"C15", "C19"},
-        [Batch("A-limit", gen_a.gen_rules, 6000, 80000, driver="A", budget_s=90.0, profile="limit")],
+        [Batch("A-limit", gen_a.gen_rules, 6000, 80000, driver="A", budget_s=90.0, profile="limit"),
+         Batch("A-long", gen_a.gen_long, 400, 8000, driver="A", budget_s=300.0, profile="rules:limit")],
         plugins=lambda: [oracles_rules.PriceLimitPlugin()],
         nontrivial=lambda s: s["probes"].get("c15_clipped_high", 0) + s["probes"].get("c15_clipped_low", 0) > 0,
         rule="Driver-A runs with 2-4 markets and a price limit rule on a subset; non-trivial = a price was clipped.",
@@ -206,7 +216,8 @@ def registry() -> Dict[str, Check]:
     reg["C16"] = Check(
         "C16", {"C16"},
         [Batch("A-halt", gen_a.gen_rules, 5000, 60000, driver="A", budget_s=90.0, profile="halt"),
-         Batch("B-mix", gen_b.gen_history, 10000, 150000, driver="B", budget_s=30.0)],
+         Batch("B-mix", gen_b.gen_history, 10000, 150000, driver="B", budget_s=30.0),
+         Batch("A-long", gen_a.gen_long, 400, 8000, driver="A", budget_s=300.0, profile="rules:halt")],
         plugins=lambda: [oracles_rules.HaltPlugin(), oracles_a.SessionRulesPlugin()],
         nontrivial=lambda s: s["probes"].get("halt_triggered", 0) > 0,
         rule="Driver-A runs with trading halt rules and price-walking scripted agents; non-trivial = a halt was triggered.",
@@ -231,7 +242,8 @@ def registry() -> Dict[str, Check]:
     )
     reg["C20"] = Check(
         "C20", {"C20"},
-        [Batch("A-agents", gen_a.gen_agents, 3000, 40000, driver="A", budget_s=90.0, profile="agents")],
+        [Batch("A-agents", gen_a.gen_agents, 3000, 40000, driver="A", budget_s=90.0, profile="agents"),
+         Batch("A-long", gen_a.gen_long, 400, 8000, driver="A", budget_s=300.0, profile="agents:")],
         plugins=lambda: [oracles_c20.AgentsPlugin()],
         exc_is_violation=_c20_exc,
         nontrivial=lambda s: s["stats"].get("agent_decisions", 0) >= 5 and s["stats"].get("fills", 0) > 0,
@@ -258,7 +270,8 @@ def registry() -> Dict[str, Check]:
     )
     reg["C07"] = Check(
         "C07", {"C07"},
-        [Batch("A-kitchen", c07.gen_kitchen, 80, 1500, driver="A", run=c07.run_c07, budget_s=900.0, profile="kitchen")],
+        [Batch("A-kitchen", c07.gen_kitchen, 80, 1500, driver="A", run=c07.run_c07, budget_s=900.0, profile="kitchen"),
+         Batch("A-kitchen-crowd", c07.gen_kitchen, 16, 300, driver="A", run=c07.run_c07, budget_s=1800.0, profile="crowd")],
         nontrivial=lambda s: s["stats"].get("fills", 0) > 0 and s["stats"].get("expiries", 0) > 0,
         rule="Kitchen-sink driver-A scenarios (all built-in agent, market and event types, correlated fundamentals, "
              "scripted agents drawing from the global generators, probes), each executed in process under two other "
